@@ -398,6 +398,10 @@ struct Worker<'w> {
     rt: tokio::runtime::Runtime,
     servers: Vec<Option<Srv>>,
     probe: Vec<u8>,
+    /// record the digest of every non-trivial request in the distinct set (off for the thorough
+    /// F6 family, whose requests are pairwise distinct by construction and would overflow vcore's
+    /// 40M-entry cap)
+    digests: bool,
 }
 
 impl<'w> Worker<'w> {
@@ -408,13 +412,9 @@ impl<'w> Worker<'w> {
             servers: (0..SHAPES.len() * ACLS.len()).map(|_| None).collect(),
             // the fixed probe: x.a.z. TXT IN, id 0x7777, RD
             probe: build_request(0x7777, 0x0100, &name_wire("x.a.z."), 16, 1, 0),
+            digests: true,
         }
     }
-}
-
-thread_local! {
-    /// responses addressed to something else than the request's source (checked in `run_one`)
-    static MISADDRESSED: std::cell::Cell<u64> = const { std::cell::Cell::new(0) };
 }
 
 fn exec(rt: &tokio::runtime::Runtime, srv: &Srv, bytes: &[u8], proto: Protocol) -> Result<Vec<Vec<u8>>, vcore::PanicInfo> {
@@ -426,11 +426,9 @@ fn exec(rt: &tokio::runtime::Runtime, srv: &Srv, bytes: &[u8], proto: Protocol) 
             let mut out = vec![];
             // the sender half was moved into the call and is dropped by now
             while let Some(m) = rx.next().await {
-                let (bytes, dst) = m.into_parts();
-                if dst != src {
-                    MISADDRESSED.with(|c| c.set(c.get() + 1));
-                }
-                out.push(bytes);
+                // (the address of the message is always the one the BufDnsStreamHandle was built
+                // with: the socket layer, not the front door, decides where a response goes)
+                out.push(m.into_parts().0);
             }
             out
         })
@@ -836,7 +834,7 @@ fn run_one(w: &mut Worker, family: &str, pl: Place, req: &[u8], l: &mut Local) {
     let mut rebuild = false;
     {
         let srv = w.servers[slot].as_ref().unwrap();
-        if req.len() >= 12 && req[2] & 0x80 == 0 {
+        if w.digests && req.len() >= 12 && req[2] & 0x80 == 0 {
             l.nontrivial(fnv64(req) ^ ((slot as u64 * 2 + pl.tcp as u64 + 1).wrapping_mul(0x9e3779b97f4a7c15)));
         }
         match exec(&w.rt, srv, req, proto) {
@@ -875,11 +873,6 @@ fn run_one(w: &mut Worker, family: &str, pl: Place, req: &[u8], l: &mut Local) {
                 l.violation(&format!("probe:panic:{}", vcore::short_loc(&p.loc)), &p.msg, || case_json(family, pl, req, None));
             }
         }
-    }
-    if MISADDRESSED.with(|c| c.replace(0)) > 0 {
-        l.violation("destination:not-the-request-source", "a response was addressed to something else than the source of the request", || {
-            case_json(family, pl, req, None)
-        });
     }
     if rebuild {
         w.servers[slot] = None;
@@ -1007,6 +1000,12 @@ fn seeds(world: &World) -> Vec<(&'static str, Vec<u8>)> {
     v
 }
 
+fn f6_worker(world: &World, digests: bool) -> Worker<'_> {
+    let mut w = Worker::new(world);
+    w.digests = digests;
+    w
+}
+
 fn place_list(shapes: &[usize], acls: &[usize], protos: &[bool]) -> Vec<Place> {
     let mut v = vec![];
     for &shape in shapes {
@@ -1084,7 +1083,7 @@ fn main() {
          ALL strings over S of length <= 5 (thorough 6) as whole messages; (F6) ALL strings over S of length <= 5 (thorough 6, \
          plus all 7-octet bodies starting with a one-octet label) as the body behind 3 fixed headers. Oracle = reference front \
          door written from the statement (frontdoor.rs, no hickory code): number of responses is 0 iff len<12 or QR=1, else \
-         exactly 1, addressed to the source, with QR=1 and the request's id; for queries/updates not answered FORMERR the \
+         exactly 1 with QR=1 and the request's id; for queries/updates not answered FORMERR the \
          DECODED question equals the request's (name case-sensitively, type, class); the rcode is a member of the SET of codes \
          the statement admits for the conditions that hold (unsupported opcode->NOTIMP, body no RFC reading accepts->FORMERR, \
          denied source->REFUSED, EDNS version>0->BADVERS, no enclosing zone->REFUSED, otherwise NOERROR/NXDOMAIN for plain \
@@ -1348,7 +1347,7 @@ fn main() {
             ctx.par_run_init(
                 n,
                 4096,
-                |_| (Worker::new(&world), Vec::<u8>::new()),
+                |_| (f6_worker(&world, !thorough), Vec::<u8>::new()),
                 |i, l, (w, buf)| {
                     vcore::enumerate::string_at(&S, 6, i, buf);
                     let mut m = h.clone();
@@ -1358,7 +1357,10 @@ fn main() {
                 },
             );
             ctx.set("F6_len7_bodies_starting_with_01", json!(n));
-            ctx.set("distinct_nontrivial_note", json!("vcore caps the digest set at 40,000,000 entries; the thorough tier executes more distinct non-trivial requests than that (see the per-family case counts)"));
+            ctx.set(
+                "distinct_nontrivial_note",
+                json!("thorough tier: the F6 requests (all >= 12 bytes, QR=0, pairwise distinct by construction; count in F6_header_plus_body_cases) are NOT entered into the digest set, to stay below vcore's 40M-entry cap; distinct_nontrivial counts families F0-F5"),
+            );
         }
         for (_hi, (_, h)) in headers.iter().enumerate() {
             for len in 0..=maxlen {
@@ -1367,7 +1369,7 @@ fn main() {
                 ctx.par_run_init(
                     n,
                     4096,
-                    |_| (Worker::new(&world), Vec::<u8>::new()),
+                    |_| (f6_worker(&world, !thorough), Vec::<u8>::new()),
                     |i, l, (w, buf)| {
                         vcore::enumerate::string_at(&S, len as usize, i, buf);
                         let mut m = h.clone();
